@@ -179,6 +179,12 @@ func (c *Ctx) WhoMay(rule, what string, sites []engine.Site, table map[string]st
 	got := map[string][]engine.Site{}
 	for _, s := range sites {
 		n := c.P.Name(s.Fn)
+		if _, listed := table[n]; !listed && c.P.ThinGoWrapper(s.Fn) {
+			// go func() { f() }() / goFunc(func() { f() }): the one-call
+			// literal is the spelling of "start f"; the site belongs to the
+			// function that starts it
+			n = c.P.Name(s.Fn.Parent())
+		}
 		got[n] = append(got[n], s)
 	}
 	var names []string
